@@ -279,8 +279,8 @@ func locksetStress(t testing.TB, cfg locksetCfg, k *locksetCounters, dur time.Du
 			}
 			time.Sleep(200 * time.Microsecond)
 		})
-		// tuning setters
-		run(base+30, func(r *vrng) {
+		// tuning setters: two callers per session, so that a setter also meets itself
+		tuning := func(r *vrng) {
 			switch r.intn(12) {
 			case 0:
 				s.SetWriteDelay(r.chance(50))
@@ -328,7 +328,9 @@ func locksetStress(t testing.TB, cfg locksetCfg, k *locksetCounters, dur time.Du
 				k.add("SendOOB", 1)
 			}
 			time.Sleep(100 * time.Microsecond)
-		})
+		}
+		run(base+30, tuning)
+		run(base+31, tuning)
 		// logger: a tuning setter like the others (finding F7 lives here)
 		run(base+35, func(r *vrng) {
 			if r.chance(30) {
@@ -532,27 +534,45 @@ func TestVerifC14(t *testing.T) {
 		cfgs = append(cfgs, locksetCfg{name: c + "/fec-off", cipher: c}, locksetCfg{name: c + "/fec-3-1", cipher: c, ds: 3, ps: 1})
 	}
 	var ran []string
+	calls := func() (c int64, delivered int64) {
+		for i, n := range locksetOpNames {
+			v := k.c[i].Load()
+			if n == "bytes.delivered" {
+				delivered = v
+			} else if n != "oob.delivered" {
+				c += v
+			}
+		}
+		return
+	}
+	// cases = public-method calls made while the detector watched; non-trivial = those made in a
+	// scenario in which payload bytes were delivered end to end while they ran
+	account := func(name string, f func()) {
+		c0, d0 := calls()
+		f()
+		c1, d1 := calls()
+		ran = append(ran, name)
+		rep.Cases += int(c1 - c0)
+		if d1 > d0 {
+			rep.Nontrivial += int(c1 - c0)
+		}
+	}
 	for i, cfg := range cfgs {
 		if only != "" && only != "stress" && only != cfg.name {
 			continue
 		}
-		locksetStress(t, cfg, k, dur, seed*131+uint64(i))
-		ran = append(ran, cfg.name)
-		rep.Cases++
+		i, cfg := i, cfg
+		account(cfg.name, func() { locksetStress(t, cfg, k, dur, seed*131+uint64(i)) })
 	}
 	iters := 3000
 	if vThorough() {
 		iters = 20000
 	}
 	if only == "" || only == "F6" {
-		locksetScenarioF6(t, k, iters)
-		ran = append(ran, "F6:GetOOBMaxSize-vs-SetMtu")
-		rep.Cases++
+		account("F6:GetOOBMaxSize-vs-SetMtu", func() { locksetScenarioF6(t, k, iters) })
 	}
 	if only == "" || only == "F7" {
-		locksetScenarioF7(t, k, iters)
-		ran = append(ran, "F7:SetLogger-vs-SetLogger")
-		rep.Cases++
+		account("F7:SetLogger-vs-SetLogger", func() { locksetScenarioF7(t, k, iters) })
 	}
 	total := int64(0)
 	for i, n := range locksetOpNames {
@@ -563,10 +583,6 @@ func TestVerifC14(t *testing.T) {
 		}
 	}
 	rep.Steps = int(total)
-	// non-trivial = a configuration in which data was delivered end to end while the setters ran
-	if rep.Distribution["bytes.delivered"] > 0 {
-		rep.Nontrivial = rep.Cases
-	}
 	rep.Monitors["go-race-detector(calls made while it watched)"] = int(total)
 	rep.Extra["scenarios"] = ran
 	rep.Extra["stress_ms_per_config"] = int(dur / time.Millisecond)
